@@ -367,7 +367,7 @@ def cstep (σ : CState) : COp → CState
     let dl := match fixedTtl with
       | some f => σ.now + f * sec
       | none => σ.now + ttl * sec
-    let e : Entry := ⟨σ.nextId, bitmap, ans, dl, σ.now + ttl * sec, σ.now, 0⟩
+    let e : Entry := ⟨σ.nextId, bitmap, ans, dl, σ.now + ttl * sec, σ.now, σ.now⟩  -- a stored answer counts as used now
     { σ with nextId := σ.nextId + 1, cache := alInsert key e σ.cache, tk := σ.tk.sync key e.snap }
   | .del key => σ.evict key
   | .fam base order =>
